@@ -261,9 +261,10 @@ def check_self_exclusion(run, A):
     cands = 0
     for idx, val, node in indexed_values(g):
         val = strip_views(val)
-        if len(idx) != 2 or not is_call_to(val, 'numpy.sum'):
+        if len(idx) not in (1, 2) or not is_call_to(val, 'numpy.sum'):
             continue
-        kL, dL = idx
+        # I[k, d] = ... per sensor, or I[k, :] = ... with all sensors at once (dL None: the column of the power is the full slice)
+        kL, dL = idx if len(idx) == 2 else (idx[0], None)
         inner0 = strip_views(call_arg(val, 0))
         if is_call_to(inner0, 'numpy.delete'):
             # the same sum written as "column d with row k deleted"
@@ -271,7 +272,7 @@ def check_self_exclusion(run, A):
             if _power_of(base, 'images') and len(items) == 2:
                 cands += 1
                 ir = loop_role(call_arg(inner0, 1))
-                ok = ok or (is_full_slice(items[0]) and items[1] == ('index', dL) and ir is not None and ir[0] == 'index' and ir[1] is kL
+                ok = ok or (is_full_slice(items[0]) and (items[1] == ('index', dL) if dL is not None else is_full_slice(items[1])) and ir is not None and ir[0] == 'index' and ir[1] is kL
                             and const_val(call_arg(inner0, None, 'axis')) in (0,) and _extent_is_dim(kL, 'images', 0) and const_val(call_arg(val, None, 'axis')) in (0, NOVAL))
             continue
         base, items = index_chain(call_arg(val, 0))
@@ -279,7 +280,7 @@ def check_self_exclusion(run, A):
             continue
         cands += 1
         rows, col = items
-        if not isinstance(rows, T) or rows.op != 'comp' or col != ('index', dL):
+        if not isinstance(rows, T) or rows.op != 'comp' or not (col == ('index', dL) if dL is not None else is_full_slice(col)):
             continue
         kind, elts, iters, conds = rows.args
         full = len(iters) == 1 and _range_over(iters[0], lambda x: _dim_of(x, 'images', 0))
@@ -400,8 +401,26 @@ def check_selection(run, A):
             src_ok = perms and any(x is perms[0] for x in walk_terms(sel_arr))
             mp_ok = bool(src_ok)
             mp_def = node
+    mp_vec = None
+    if sel_arr is None:
+        # fully vectorised form: sum(S[arange(K_source), <all enumerated selections>], axis=-1) - every candidate at once
+        for e_ in g.events:
+            if e_.kind not in ('call', 'outcall') or not is_call_to(e_.term, 'numpy.sum') or const_val(call_arg(e_.term, None, 'axis')) != -1:
+                continue
+            cp = strip_views(call_arg(e_.term, 0))
+            if cp.op != 'sub':
+                continue
+            base, items = index_chain(cp)
+            if _power_of(base, 'image_contribution') and len(items) == 2 and isinstance(items[0], T) and isinstance(items[1], T):
+                ar = strip_views(items[0])
+                ok_ar = is_call_to(ar, 'numpy.arange') and len(call_parts(ar)[1]) == 1 and not call_parts(ar)[2] and _dim_of(call_arg(ar, 0), 'image_contribution', 0)
+                cand = strip_views(items[1])
+                # (the whole array of enumerated selections, not a selection of its rows)
+                part = any(x.op in ('sub', 'elem') and any(y is perms[0] for y in walk_terms(x)) for x in walk_terms(cand)) if perms else True
+                if ok_ar and perms and any(x is perms[0] for x in walk_terms(cand)) and not part:
+                    sel_arr, mp_ok, mp_def, mp_vec = cand, True, e_.node, strip_views(e_.term)
     # ... for EVERY enumerated selection: the running index p covers the first axis of the candidate array
-    if sel_arr is not None and mp_ok:
+    if sel_arr is not None and mp_ok and mp_vec is None:
         lp_ = [idx[0] for idx, val, node in indexed_values(g) if node is mp_def and len(idx) == 1]
         ext = index_extent(lp_[0]) if lp_ else None
         full = False
@@ -420,7 +439,8 @@ def check_selection(run, A):
         used_ok = any(x.op == 'sub' and strip_views(x.args[0]) is sel_arr and strip_views(x.args[1]) is am[0] for x in all_terms)
         # ... and the arg-max is taken over the mutual power defined above (a loop-filled array or the comprehension itself)
         src = strip_views(call_arg(am[0], 0))
-        arg_ok = any(x.op == 'mu' for x in walk_terms(src)) or any(x.op == 'comp' and x.node is mp_def for x in walk_terms(src))
+        arg_ok = any(x.op == 'mu' for x in walk_terms(src)) or any(x.op == 'comp' and x.node is mp_def for x in walk_terms(src)) or \
+            (mp_vec is not None and (src is mp_vec or (is_call_to(src, 'numpy.sum') and strip_views(call_arg(src, 0)) is strip_views(call_arg(mp_vec, 0)))))
         used_ok = used_ok and arg_ok
     run.check(mp_ok and used_ok, 'R-SEL', 'output_sxr: criterion = sum_k S[k, selection[k]], winner is what is used', fn.loc(), '',
               f'mutual power is the captured diagonal power of an enumerated selection: {mp_ok}; the arg-max selection is the one evaluated: {used_ok}', construct=f'R-SEL::{q}::criterion')
